@@ -7,7 +7,7 @@ args = sys.argv[1:]
 J = 4
 if args and args[0] == "-j":
     J = int(args[1]); args = args[2:]
-ids = args or sorted(d for d in os.listdir(os.path.join(ROOT, "seeded")) if os.path.isdir(os.path.join(ROOT, "seeded", d)))
+ids = args or sorted(d for d in os.listdir(os.path.join(ROOT, "seeded")) if os.path.exists(os.path.join(ROOT, "seeded", d, "meta.json")))
 tier = os.environ.get("MATRIX_TIER", "quick")
 
 def one(sid):
@@ -21,6 +21,8 @@ def one(sid):
         if l.startswith("== "):
             w = l.split()
             res[w[1]] = int(w[2].split("=")[1])
+    with open(os.environ.get("MATRIX_PROGRESS", "/dev/shm/matrix.progress"), "a") as fh:
+        fh.write("%s %s\n" % (sid, res))
     return sid, res, p.stdout[-400:] if not res else ""
 
 with cf.ThreadPoolExecutor(J) as ex:
